@@ -73,13 +73,18 @@ def seeded(flt):
                 continue
             props = meta.get('detected_by_properties') or [meta['property']]
             caught = []
+            # one load of the tree (-property ALL), then the verdict of every recorded property
+            rc, out = run_check('ALL', d)
             for p in props:
-                rc, out = run_check(p, d)
-                v = [l for l in out.splitlines() if l.startswith('VIOLATION')]
+                v = [l for l in out.splitlines() if l.startswith('VIOLATION property=' + p + ' ')]
                 if v:
                     caught.append((p, [re.sub(r'replay=\S+ ', '', x) for x in v]))
             exp = meta.get('expected', 'caught')
-            if caught:
+            lacking = [p for p in props if p not in [c[0] for c in caught]]
+            if caught and lacking and exp != 'missed':
+                bad += 1
+                print(f"PARTIAL {name} ({meta['property']}): recorded as detected by {props}, not reported by {lacking}")
+            elif caught:
                 print(f"caught  {name} ({meta['property']}): " + '; '.join(f"{p}: {v[0]}" for p, v in caught))
                 if exp == 'missed':
                     print(f"        note: {name} was recorded as missed and is now caught — update meta.json")
